@@ -12,6 +12,8 @@ import (
 //                       belongs to github.com/EscanBE/evermint, hook package excluded): the repository's
 //                       own code touches the shared memory (its variables, slices, maps, or standard-library
 //                       objects it owns such as big.Int / maps / slices);
+//                       Frames of plain value libraries (golang.org/x/..., uint256) are looked through like the
+//                       standard library: a caser, a big number or a hash state is owned by whoever holds it;
 //        "harness"    - same, for code of this harness (a monitor bug, reported as inconclusive);
 //        "dependency" - both access sites are inside a dependency (cosmos-sdk store, iavl, cometbft, goja ...)
 //                       that owns the memory; repository frames appear only further up as callers.
@@ -33,7 +35,11 @@ func isStdOrRuntime(fn string) bool {
 		first = first[:i]
 		return true // "runtime.x", "sync.x", "bytes.x": single-element path = standard library
 	}
-	return !strings.Contains(first, ".")
+	if !strings.Contains(first, ".") {
+		return true
+	}
+	// plain value libraries: their objects are owned by the calling code, like standard-library objects
+	return strings.HasPrefix(fn, "golang.org/x/") || strings.HasPrefix(fn, "github.com/holiman/uint256")
 }
 
 // ParseRaceLog splits GORACE log text into classified reports.
